@@ -7,6 +7,7 @@ from props import scommon as sc
 K = e3.EV
 SRC_HEAP = "e2_model/c11_heap.cpp"
 STARTS_NS = [-1000000, 0, 50000, 200000, 1000000, 3000000, 8000000, 20000000]
+FAR_NS = 3600 * 10 ** 9          # a start time beyond any observation window: such a timer only fires if its settings are replaced
 INTERVALS_NS = [0, 0, 100000, 300000, 1000000, 5000000, 20000000]
 
 
@@ -23,7 +24,9 @@ class Grammar(qc.QGrammar):
         maxdl = 0
         for s in range(n):
             b, b2 = h[11 + s % 6] ^ (s * 37 & 0xff), h[17 + s % 4] ^ (s * 11 & 0xff)
-            start = STARTS_NS[b % 8]
+            start = STARTS_NS[b % 8] if (b2 >> 4) % 4 else FAR_NS
+            if start == FAR_NS:
+                P.features.add("far-start")
             interval = INTERVALS_NS[(b >> 3) % 7]
             clock = (b >> 6) % 3
             settimer_at = [0, 0, 0, 1, 2][b2 % 5]
@@ -31,7 +34,7 @@ class Grammar(qc.QGrammar):
             cancel_at = [0, 0, 0, 3, 6][(b2 >> 2) % 5] if interval else 0
             P.source(s, sc.T_TIMER, [0, 2][(b2 >> 1) % 2], flags=2 | (4 if b2 & 1 else 0), hwork=[0, 0, 200, 3001][(b >> 1) % 4], cancel_at=cancel_at, settimer_at=settimer_at,
                      a=start, b=interval, c=[0, 0, 100000, 1000000][(b2 >> 6) % 4], na=na, nb=nb, clock=clock)
-            maxdl = max(maxdl, start, na if settimer_at else 0)
+            maxdl = max(maxdl, start if start < FAR_NS else 0, na if settimer_at else 0)
         P.nsrc = n
         P.features.add("timers=%d" % n)
         P.cfg["horizon"] = 3 + maxdl // 1000000
@@ -58,6 +61,8 @@ class Grammar(qc.QGrammar):
             o = P.op(ctx, "settimer", a=s, b=STARTS_NS[2 + c % 6], c=INTERVALS_NS[(c >> 3) % 7], d=0, src=s, thread=ctx)
             P.op(ctx, "resume", a=s, b=t, src=s, thread=ctx)
             P.features.add("settings-replaced-while-suspended")
+            if P.sources[s]["a"] == FAR_NS:
+                P.features.add("far-start-replaced-by-near-start")
             P.cfg["horizon"] = max(P.cfg["horizon"], 3 + STARTS_NS[2 + c % 6] // 1000000)
             return o
         if kind == "suspend":
